@@ -353,6 +353,27 @@ private:
     // Attribute enum and the args we are passing here must be in sync
     static_assert(PatternFormatter::Attribute::ATTR_NR_ITEMS == sizeof...(Args));
 
+    // '{' and '}' in the literal text of the pattern are doubled so that fmt prints them as they
+    // are; a %(...) attribute, which carries the user's fmt format specifier, is left untouched
+    for (size_t i = 0; i < pattern.size(); ++i)
+    {
+      if ((pattern[i] == '%') && (i + 1 < pattern.size()) && (pattern[i + 1] == '('))
+      {
+        i = pattern.find_first_of(')', i);
+
+        if (i == std::string::npos)
+        {
+          // missing ')', reported below
+          break;
+        }
+      }
+      else if ((pattern[i] == '{') || (pattern[i] == '}'))
+      {
+        pattern.insert(i, 1, pattern[i]);
+        ++i;
+      }
+    }
+
     pattern += "\n";
 
     std::array<size_t, PatternFormatter::Attribute::ATTR_NR_ITEMS> order_index{};
